@@ -74,17 +74,18 @@ check('C14', 'Hypothesis-generated paragraphs from a tricky-token vocabulary, fi
 
 check('C11', 'bounded exhaustive operation histories + Hypothesis-drawn histories + hypothesis.stateful RuleBasedStateMachine, with fault injection at every token-list position; fresh-interpreter baseline as reference model',
       'enumeration-pool + hypothesis-sharded (stateful)',
-      'Histories over {use renderer, enter/render/exit, parse that raises inside a custom block/span token at every list position, bare '
+      'Histories over {use renderer, enter/render/exit, a documented refusal half-way through rendering, parse that raises inside a custom block/span token at every list position, bare '
       'parse, Scheme} are executed in-process; after every step the token lists must equal the defaults and a battery of 13 probe documents '
-      '(HtmlRenderer output + dump of a bare parse) and the operation\'s own output must equal values computed in a fresh interpreter. '
+      '(HtmlRenderer output + dump of a bare parse) and the operation\'s own output must equal reference values, each computed in its own pristine process. '
       'All length-2 histories over the full alphabet and all length-4 (5 thorough) histories over 8 state-touching operations are enumerated.',
       'Leaks are visible only through the probe battery and token lists; longer histories are sampled, not enumerated.',
       'DESIGN.md 5/C11')
 
 check('C16', 'complete pair table of synthetic custom span tokens (Allen relations x precedence x flags x registration order) + Hypothesis-generated token-type sets and texts; tiling invariants and statement-derived outcome table',
       'enumeration-pool + hypothesis-sharded',
-      'All 10400 configurations of two custom token types are parsed and checked against an outcome table derived from the statement '
-      '(asserted in 6800 unambiguous cells) and against tiling / order / containment / confinement invariants; random sets of up to 4 '
+      'All 10400 configurations of two custom token types are parsed at top level and again inside the parse group of a third custom token, '
+      'and checked against an outcome table derived from the statement (asserted in 6800 unambiguous cells) and against tiling / order / '
+      'containment / confinement invariants (context left normally and by an exception); random sets of up to 4 '
       'regex-based custom types over generated texts are checked against the invariants.',
       'Outcome is not asserted where the statement is silent (equal starts, match inside the other\'s delimiter, container that does not parse inner).',
       'DESIGN.md 5/C16')
